@@ -47,7 +47,7 @@ def expected_cases(jobs: list) -> int:
         if kind == "S":
             continue
         if kind == "A":
-            tot += (hi - lo) * len(FRAME_SIZES) * 2
+            tot += (hi - lo) * (len(FRAME_SIZES) * 2 + (1 if cls != "graph" else 0))
         elif kind == "B3":
             tot += (hi - lo) * len(SINK_CONFIGS)
         else:
@@ -187,6 +187,8 @@ def run_job(job, judge, include_out_of_domain: bool = False) -> dict:
         seq = [alpha[i] for i in sym]
         if kind == "A":
             configs = [(pi, fs, dl, "stream_frames_gen") for fs in FRAME_SIZES for dl in (True, False)]
+            if cls != "graph":
+                configs.append((pi, 250, True, "grouped_split"))
         elif kind == "B3":
             configs = [(p, fs, True, w) for p, fs, w in SINK_CONFIGS]
         else:
